@@ -1,6 +1,7 @@
 package symmetry
 
 import (
+	"os"
 	"fmt"
 	"go/token"
 	"go/types"
@@ -88,6 +89,9 @@ type Analysis struct {
 	Notes      []string
 	ev         *tables.Evaluator
 	sbMemo     map[sbKey]bool
+
+	rowMemo map[ssa.Value]*rowConst
+	curRow  map[ssa.Value]int // row index value → row, while the sites of one function are decided
 }
 
 // Config names the per-detector anchors E4 needs.
@@ -630,6 +634,9 @@ func (a *Analysis) classifyScalars() {
 			return false
 		}
 		if old := a.srcOf[v]; old != nil && old != s {
+			if os.Getenv("VERIF_DBGROWS") != "" {
+				fmt.Fprintf(os.Stderr, "set conflict %s: old=%s/%s(%d) new=%s/%s(%d)\n", v.Name(), old.Kind, old.Key, old.ID, s.Kind, s.Key, s.ID)
+			}
 			a.multi[v] = true
 			return true
 		}
@@ -756,6 +763,12 @@ func (a *Analysis) classifyScalars() {
 						sx, sy := a.srcOf[x.X], a.srcOf[x.Y]
 						_, cx := x.X.(*ssa.Const)
 						_, cy := x.Y.(*ssa.Const)
+						if !cx && a.rowConstOf(x.X) != nil {
+							cx = true
+						}
+						if !cy && a.rowConstOf(x.Y) != nil {
+							cy = true
+						}
 						vx, vy := !a.effClean(x.X), !a.effClean(x.Y)
 						switch {
 						case (a.multi[x.X] && vx) || (a.multi[x.Y] && vy):
